@@ -9,7 +9,7 @@ RULE = ("cases = (encoded array, index) for every array of length 1..L over {0,1
         "oracle = the same index applied to the dense array; non-trivial = the array has at least two runs and the result is non-empty")
 ASSUMPTIONS = ["oracle: numpy indexing of the dense array; values only", "out-of-range integers are outside the statement and not issued",
                "results that are run-length arrays must also satisfy the constructor invariant (C14)"]
-REQUIRED_FEATURES = ["negative_int", "bound_beyond_end", "negative_step", "empty_result", "rl_mask", "rl_mask_not_canonical", "dense_mask", "list_of_bools_mask", "small_index_dtype", "slice_of_empty_or_single_result", "window_pair", "list_with_repeats", "close_float_values",
+REQUIRED_FEATURES = ["negative_int", "bound_beyond_end", "negative_step", "empty_result", "rl_mask", "rl_mask_not_canonical", "dense_mask", "list_of_bools_mask", "small_index_dtype", "slice_of_empty_or_single_result", "index_inside_tuple", "window_pair", "list_with_repeats", "close_float_values",
                      "step_larger_than_run"]
 BOUNDS = {"quick": "all arrays over {0,1,2} of length 1..4 and those of length 5 starting with 0 x {every int in [-L,L-1]; every list of length<=2; every dense and run-length mask; every slice with "
                    "start,stop in {None} u [-(L+2),L+2] and step in {None,+-1,+-2,+-3,+-4}; every vector of 1-2 windows}; list-of-bools masks; close-float arrays; two 40-element arrays; 100- and 200-element arrays indexed in int8 / uint8 / int16 / int32",
@@ -101,6 +101,10 @@ def cases(shard, tier):
     wins = [(s, e) for s in range(L) for e in range(s + 1, L + 1)]
     for k in (1, 2):
         for w in itertools.product(wins, repeat=k):
+            yield [t, ["win", [list(x) for x in w]]]
+    if L == 4:
+        # three windows in every order (a permutation applied twice is the identity for <= 2 windows, not for a 3-cycle)
+        for w in itertools.permutations([(0, 2), (1, 4), (2, 3), (3, 4)], 3):
             yield [t, ["win", [list(x) for x in w]]]
 
 
@@ -194,7 +198,17 @@ def check(case, acc):
         f2 = None
     if runs >= 2 and not (exp[0] == "A" and exp[2] == (0,)):
         acc.nontrivial()
-    for g in (f, f2):
+    wrapped = []
+    if kind in ("int", "list", "arr", "mask", "listmask", "slice") and len(case) == 2 and L <= 4:
+        # the same index as the single entry of a tuple, and next to an Ellipsis (numpy: the same selection)
+        acc.feature("index_inside_tuple")
+        raw = {"int": lambda: idx[1], "list": lambda: list(idx[1]), "arr": lambda: np.array(idx[1], dtype=np.int64),
+               "mask": lambda: np.array(idx[1], dtype=bool), "listmask": lambda: [bool(b) for b in idx[1]],
+               "slice": lambda: slice(idx[1], idx[2], idx[3])}[kind]
+        post = (lambda o: ("S", pyval(np.asarray(o)[()]))) if kind == "int" else \
+            ((lambda o: _rla_obs(o, joined=(idx[3] not in (None, 1)))) if kind == "slice" else (lambda o: dense_obs(np.asarray(o), dt=False)))
+        wrapped = [lambda: post(r[(raw(),)]), lambda: post(r[..., raw()]), lambda: post(r[raw(), ...])]
+    for g in [f, f2] + wrapped:
         if g is None:
             continue
         o = attempt(g)
